@@ -233,6 +233,14 @@ Theorem C15_executor_reuse_bounded : forall ops n args s' e reused,
 Proof. exact reuse_bounded. Qed.
 Print Assumptions C15_executor_reuse_bounded.
 
+(* the machine builds a replacement executor (current one broken, shut down, or other arguments) with the REQUESTED size
+   ([fresh (s_next s) n] in get_executor); regenerated source fact: get_reusable_executor never reassigns max_workers in that
+   branch -- a call after a worker death or an aborted call does not inherit the dead executor's size *)
+Theorem C15_executor_replacement_size : forall requested dead,
+  replacement_size_is_requested = true /\ replacement_size replacement_size_is_requested requested dead = requested.
+Proof. exact replacement_is_requested. Qed.
+Print Assumptions C15_executor_replacement_size.
+
 (* a resolved n_jobs (>= 1, C15_at_least_one) is never refused, and the executor object is kept exactly when it is healthy
    and the arguments did not change *)
 Theorem C15_executor_reuse_iff : forall n args s e0, 1 <= n -> s_exec s = Some e0 ->
